@@ -230,7 +230,7 @@ def _main(prop, tier, seed, args, scratch, t0):
     if tier == "quick":
         # Quick shards are bounded by their case counts; the wall-clock budget is only a guard for a loaded machine (JIT compilation
         # slows down several-fold when other jobs compile at the same time), so it is generous.
-        qs = float(os.environ.get("VERIF_QUICK_BUDGET_SCALE", "2.0"))
+        qs = float(os.environ.get("VERIF_QUICK_BUDGET_SCALE", "3.0"))
         for s in specs:
             if "budget_s" in s and "replay" not in s:
                 s["budget_s"] = float(s["budget_s"]) * qs
